@@ -1,9 +1,10 @@
 (* C13 — geometric invariants and in-place == copy after any transformation history.
    ONLY statements closed by [exact], each followed by Print Assumptions.
-   Region-level statements are complete (all argument values, all histories, induction over the step
-   list).  Mesh / field roots: the executable model (History.v: mstep, fstep, inv_mesh, inv_field) is
-   tied to the code by the correspondence; their history theorems are not proved yet (see _partial). *)
-From DF Require Import Prelude Constants_gen Region Mesh Subregions History C13_region.
+   Inv = region: pmin < pmax, equal lengths, unique dims; mesh: that + n positive of the right length +
+   every subregion carries the mesh's dims / units / tolerance and consists of whole cells j1..j2-1 of
+   the mesh lattice on every axis (on_cells); field: that + array shape n ++ [nvdim], validity shape n.
+   All statements hold for every argument value (valid, degenerate, malformed) and every history. *)
+From DF Require Import Prelude Constants_gen Region Mesh Subregions History C13_region C13_mesh C13_history.
 Open Scope Q_scope.
 
 (* a rejected step leaves the state of the history as it was (any root object) *)
@@ -30,18 +31,72 @@ Theorem C13_step_keeps_dims : forall (ip : bool) (o : hop) (r r' : region), wf_r
 Proof. exact rstep_keeps. Qed.
 Print Assumptions C13_step_keeps_dims.
 
-(* histories of any length on a region, any mix of forms, rejected steps skipped *)
-Theorem C13_inv_reachable_partial : forall (h : list (bool * hop)) (r : region),
-  wf_region r -> Inv (run h (SRegion r)).
-Proof. exact inv_reachable_region. Qed.
-Print Assumptions C13_inv_reachable_partial.
+(* ---------- every root (region, mesh with subregions, field), every history ---------- *)
+(* the invariant holds after any sequence of steps, any mix of forms, rejected steps skipped *)
+Theorem C13_inv_reachable : forall (h : list (bool * hop)) (s : hstate), Inv s -> Inv (run h s).
+Proof. exact inv_reachable. Qed.
+Print Assumptions C13_inv_reachable.
 
-(* the final state does not depend on which form each step used *)
-Theorem C13_inplace_eq_copy_partial : forall (ops : list hop) (f1 f2 : list bool) (r : region),
-  wf_region r -> length f1 = length ops -> length f2 = length ops ->
-  run (combine f1 ops) (SRegion r) = run (combine f2 ops) (SRegion r).
-Proof. exact forms_irrelevant_region. Qed.
-Print Assumptions C13_inplace_eq_copy_partial.
+(* one step: the copying path (constructors, subregion setter, array-shape test) accepts the same calls
+   as the in-place path and returns the same state *)
+Theorem C13_inplace_eq_copy_any_root : forall (o : hop) (s : hstate), Inv s -> step false o s = step true o s.
+Proof. exact step_forms. Qed.
+Print Assumptions C13_inplace_eq_copy_any_root.
+
+(* the final state of a history does not depend on which form each step used *)
+Theorem C13_inplace_eq_copy : forall (ops : list hop) (f1 f2 : list bool) (s : hstate),
+  Inv s -> length f1 = length ops -> length f2 = length ops ->
+  run (combine f1 ops) s = run (combine f2 ops) s.
+Proof. exact forms_irrelevant. Qed.
+Print Assumptions C13_inplace_eq_copy.
+
+(* mesh step: region + subregions + n keep the lattice invariant ... *)
+Theorem C13_mesh_inv_step : forall (ip : bool) (o : hop) (m m' : mesh),
+  inv_mesh m -> mstep ip o m = OK m' -> inv_mesh m'.
+Proof. exact mstep_inv. Qed.
+Print Assumptions C13_mesh_inv_step.
+
+(* ... because region and subregion are mapped, axis by axis, by one affine map x -> al*x + be read from
+   one source axis (the other axis of an odd quarter turn), and n is read from the same source axis *)
+Theorem C13_affine_axes : forall (o : hop) (r s : region) (p1 p2 : list Q) (us : list string)
+    (q1 q2 : list Q) (vs : list string) (ns : list Z),
+  wf_region r -> wf_region s -> length (pmin s) = length (pmin r) -> dims s = dims r -> units s = units r ->
+  prep o r = OK (p1, p2, us) -> prep (sub_op o (center r)) s = OK (q1, q2, vs) ->
+  length ns = length (pmin r) ->
+  vs = us /\ forall j, (j < length (pmin r))%nat -> exists sg al be, (sg < length (pmin r))%nat /\
+     nth j (hnew_n o r ns) 1%Z = nth sg ns 1%Z /\ axis_rel j sg al be p1 p2 r /\ axis_rel j sg al be q1 q2 s.
+Proof. exact prep_pair. Qed.
+Print Assumptions C13_affine_axes.
+
+(* subregions made of whole cells pass the copying form's setter (value in region, whole number of cells,
+   aligned) for every non-negative alignment tolerance: the bridge to C14's set_subregions_tol *)
+Theorem C13_whole_cells_accepted : forall (tol : Q) (m : mesh) (s : region),
+  0 <= tol -> wf_mesh m -> inv_sub m s -> sub_ok tol m s = true.
+Proof. exact whole_cells_accepted. Qed.
+Print Assumptions C13_whole_cells_accepted.
+
+(* cell * n = edges on every axis of every reachable mesh, cells positive *)
+Theorem C13_cell_times_n : forall (m : mesh) (a : nat), inv_mesh m -> (a < length (pmin (reg m)))%nat ->
+  0 < nth a (cell m) 0 /\
+  inject_Z (nth a (n m) 1%Z) * nth a (cell m) 0 == nth a (pmax (reg m)) 0 - nth a (pmin (reg m)) 0.
+Proof. exact cell_times_n_inv. Qed.
+Print Assumptions C13_cell_times_n.
+
+(* field step keeps array shape n ++ [nvdim] and validity shape n *)
+Theorem C13_field_inv_step : forall (ip : bool) (o : hop) (f f' : fstate),
+  inv_field f -> fstep ip o f = OK f' -> inv_field f'.
+Proof. exact fstep_inv. Qed.
+Print Assumptions C13_field_inv_step.
+
+(* a vector field without a mapped component for one of the two axes refuses the quarter turn in both
+   forms (and, by C13_reject_unchanged, the state is untouched) *)
+Theorem C13_field_unmapped_refused : forall (ip : bool) (a1 a2 : string) (k : karg) (ref : rarg)
+    (f : fstate) (a b : nat),
+  dim2index a1 (reg (fmesh f)) = OK a -> dim2index a2 (reg (fmesh f)) = OK b -> (1 < fnvdim f)%Z ->
+  nth a (frmap f) None = None \/ nth b (frmap f) None = None ->
+  fstep ip (HRot a1 a2 k ref) f = Err RuntimeE.
+Proof. exact fstep_unmapped_refused. Qed.
+Print Assumptions C13_field_unmapped_refused.
 
 (* documented maps: translation adds the vector (always accepted) *)
 Theorem C13_affine_translate : forall (ip : bool) (w : list Q) (r : region), wf_region r ->
@@ -86,3 +141,18 @@ Example C13_nonvacuous :
      units r' = ["nm"%string; "m"%string; "s"%string] /\
      qlist_eqb (pmin r') [1; -(1); 0] = true /\ qlist_eqb (pmax r') [3; 3; 1] = true).
 Proof. exact demo_steps. Qed.
+
+(* non-vacuity for mesh and field roots: a 4x2x1 mesh with two whole-cell subregions and a 3-component
+   field satisfy Inv; an odd quarter turn in place followed by a negative per-axis scaling in the copying
+   form is accepted (n swapped, both subregions kept); a zero factor is refused by both forms; the field's
+   shapes follow n *)
+Example C13_nonvacuous_mesh_field :
+  Inv (SField demo_field) /\ Inv (SMesh demo_mesh) /\
+  (exists m', mstep true (HRot "x" "y" (KInt 1) RNone) demo_mesh = OK m' /\ n m' = [2; 4; 1]%Z /\
+     exists m'', mstep false (HScale (VSeq [EReal (-(2)); EReal 1; EReal (1 # 2)]) (RSeq [EReal 0; EReal 0; EReal 0])) m' = OK m'' /\
+       n m'' = [2; 4; 1]%Z /\ length (subs m'') = 2%nat) /\
+  is_ok (mstep true (HScale (VScalar 0) RNone) demo_mesh) = false /\
+  is_ok (mstep false (HScale (VScalar 0) RNone) demo_mesh) = false /\
+  (exists f', fstep true (HRot "x" "y" (KInt 3) RNone) demo_field = OK f' /\
+     fashape f' = [2; 4; 1; 3]%Z /\ fvshape f' = [2; 4; 1]%Z).
+Proof. exact demo_history. Qed.
